@@ -22,6 +22,7 @@ type Config struct {
 	MaxSeconds    float64
 	Workers       int
 	SolverArgv    []string
+	FallbackArgv  []string
 	TimeoutMs     int
 	SchedExplore  bool
 	SchedPolicy   string
@@ -122,6 +123,8 @@ type Interp struct {
 	reached     map[string]bool
 	onPrefixEnd func()
 	known       map[int]bool
+	constCache  map[*ssa.Const]value
+	cl          *cloner
 	inInit      bool
 	atPrefixEnd bool
 	lastPanic   string
@@ -651,7 +654,7 @@ type PathResult struct {
 func (w *worker) runPath(item workItem) (res PathResult) {
 	eng := w.eng
 	in := &Interp{eng: eng, prog: eng.prog, cfg: w.cfg, tc: newTermCtx(), sol: w.sol,
-		prefix: item.prefix, objIDs: map[*value]int{}, reached: map[string]bool{}}
+		prefix: item.prefix, objIDs: map[*value]int{}, reached: map[string]bool{}, constCache: map[*ssa.Const]value{}}
 	in.globals = map[*ssa.Global]*value{}
 	in.sol.beginPath()
 	in.initSched()
@@ -715,7 +718,16 @@ func (w *worker) runPath(item workItem) (res PathResult) {
 			res.Vector.Expect = in.traceUnder(in.model)
 		}
 	}()
-	in.runInit()
+	if w.tmpl == nil {
+		t := &Interp{eng: eng, prog: eng.prog, cfg: w.cfg, tc: newTermCtx(), sol: w.sol,
+			objIDs: map[*value]int{}, reached: map[string]bool{}, constCache: map[*ssa.Const]value{}}
+		t.globals = map[*ssa.Global]*value{}
+		t.initSched()
+		t.setModel(Model{})
+		t.runInit()
+		w.tmpl = t
+	}
+	in.cloneInitFrom(w.tmpl)
 	fn := eng.harnessFn(w.cfg.Harness)
 	in.call(nil, 0, fn, nil)
 	if in.replaying() {
@@ -758,6 +770,7 @@ type worker struct {
 	cfg *Config
 	sol *Solver
 	cur *Interp
+	tmpl *Interp
 }
 
 type Summary struct {
@@ -797,6 +810,7 @@ func explore(eng *Engine, cfg *Config) *Summary {
 			defer wg.Done()
 			w := &worker{id: id, eng: eng, cfg: cfg}
 			w.sol = newSolver(cfg.SolverArgv, cfg.TimeoutMs)
+			w.sol.fallback = cfg.FallbackArgv
 			defer func() {
 				mu.Lock()
 				sum.Solver.add(&w.sol.stats)
